@@ -80,6 +80,10 @@ pub fn diff_array_with(got: &Array, dims: &[usize], want: &[f64], mags: &[f64], 
         // an overflowing magnitude would make the tolerance infinite, i.e. the comparison vacuous
         return Some(UNDECIDABLE.to_string());
     }
+    // the f32 build cannot represent what the (f64) reference can: values or magnitudes near f32::MAX are undecidable
+    if IS_F32 && want.iter().zip(mags).any(|(w, m)| w.abs() > 1e37 || m.abs() > 1e37) {
+        return Some(UNDECIDABLE.to_string());
+    }
     let exact = exact && mags.iter().all(|m| m.abs() < exact_limit());
     for i in 0..want.len() {
         // where the reference says its own value is noise (the tolerance dwarfs the value: the result of a
